@@ -84,6 +84,25 @@ Theorem c09_frame_by_length hv ha t :
                   ++ t_body t ++ mux_tag_trailer_n (lenN (t_body t)).
 Proof. exact (mux_single hv ha t). Qed.
 
+(* Histories on one Muxer: as a state machine whose state is the list of Write calls issued,
+   the muxer issues exactly [mux_writes], and what earlier WriteTag calls wrote is a prefix of
+   the final state -- later calls cannot change it.  (Values are persistent in the model; it is
+   the end-of-history correspondence run, with the caller reusing and scribbling over its tag
+   buffer after every call, that carries "the implementation does not alias".) *)
+Theorem c09_write_history hv ha tags :
+  fold_left write_tag tags (write_header [] hv ha) = mux_writes hv ha tags.
+Proof. exact (write_history_mux hv ha tags). Qed.
+
+Theorem c09_write_history_prefix tags1 tags2 st :
+  fold_left write_tag (tags1 ++ tags2) st
+  = fold_left write_tag tags1 st ++ concat (map mux_tag_writes tags2).
+Proof. exact (write_history_prefix tags1 tags2 st). Qed.
+
+(* Histories on one Demuxer: the tags already read are kept unchanged in every later result *)
+Theorem c09_read_history_prefix fuel s acc r e :
+  read_tags fuel s acc = Ok (r, e) -> exists l, r = rev acc ++ l.
+Proof. exact (read_tags_acc_prefix fuel s acc r e). Qed.
+
 (* the muxer writes bytes *)
 Theorem c09_mux_bytes hv ha tags :
   Forall (fun t => wf_bytes (t_body t)) tags -> wf_bytes (mux hv ha tags).
@@ -140,6 +159,9 @@ Print Assumptions c09_roundtrip_harness.
 Print Assumptions c09_truncated_prefix.
 Print Assumptions c09_size_field_mod.
 Print Assumptions c09_frame_by_length.
+Print Assumptions c09_write_history.
+Print Assumptions c09_write_history_prefix.
+Print Assumptions c09_read_history_prefix.
 Print Assumptions c09_mux_bytes.
 Print Assumptions flv_demux_total.
 Print Assumptions c09_demux_returns.
